@@ -904,6 +904,10 @@ func nonNil(t *Term) bool {
 		case strings.HasSuffix(t.Name, "status.Error") || strings.HasSuffix(t.Name, "status.Errorf"):
 			// grpc status errors: non-nil for every code but OK (never used with OK here)
 			return len(t.Args) > 0 && !strings.HasSuffix(t.Args[0].Key(), "codes.OK") && t.Args[0].Key() != "0"
+		case strings.HasSuffix(t.Name, "status.Status).Err") && len(t.Args) == 1:
+			// status.New(code, msg).Err(): non-nil for every code but OK
+			s := t.Args[0]
+			return s.Op == "call" && strings.HasSuffix(s.Name, "status.New") && len(s.Args) > 0 && !strings.HasSuffix(s.Args[0].Key(), "codes.OK") && s.Args[0].Key() != "0"
 		}
 	}
 	return false
@@ -1393,6 +1397,16 @@ func (e *engine) doCall(fr *frame, site ssa.Instruction, c *ssa.CallCommon, preF
 		args = canonArgs(sc, args) // pinned parameter order of a re-signatured helper
 	} else if target != nil {
 		args = canonArgs(target, args)
+	}
+	// getters of sdk.Coin through a pointer receiver: the same getter on the value
+	if strings.HasPrefix(name, "(*sdk.Coin).Get") && len(args) == 1 && args[0].Op == "addr" {
+		name = "(sdk.Coin)." + methodOf(name)
+		args = []*Term{e.load(args[0].Args[0], nil)}
+	}
+	// library idioms with one meaning get one term (normcall.go)
+	if t := normCall(name, args, resT); t != nil {
+		cont(t)
+		return
 	}
 	// sdk.UnwrapSDKContext(c) / sdk.WrapSDKContext(c): the same context under its other static
 	// type - where a helper unwraps is not observable
@@ -1923,6 +1937,7 @@ var purePkgPrefixes = []string{
 	"golang.org/x/crypto/sha3.",
 	"slices.Concat", "slices.Clone", "bytes.Clone", // fresh copies: never alias their arguments
 	"cmp.Compare", "cmp.Less",
+	"google.golang.org/grpc/status.New", "(*google.golang.org/grpc/status.Status).Err", "google.golang.org/grpc/status.Error", "google.golang.org/grpc/status.Errorf",
 	"collections.Join", "collections.NewPrefixedPairRange", "(*collections.PairRange", "(collections.Pair[",
 	"(*collections.Range",
 	"(address.Codec).",
